@@ -58,3 +58,5 @@ META = dict(
                 "the evidence rule); sizes >= 2^31 are reached only as index arguments and overflow guards (DESIGN section 6)."),
     technique="runtime monitoring: reference-model oracle after every operation + ASan/UBSan + canaries around caller storage",
 )
+
+CFG["rule"] += (" " + 'Additions: -O2 stages only: lists whose storage passes 4 GiB (every 128th case), erase near the front of a 2 GiB byte list (once per stage run), shrink_to_fit of a list with 4 GiB + 128 bytes live (once per stage run: size of the new block, markers on both sides of the 4 GiB mark); pop_front_n with wrap-around counts; stale aws_last_error()/errno.')
